@@ -79,6 +79,13 @@ def generate() -> str:
                     F["defaultThr"] = lean_str(attr(t))
                     continue
             if isinstance(st, ast.If) and grouped_var and any(isinstance(n, ast.Assign) and src(n.targets[0]) == grouped_var for n in ast.walk(st)):
+                # `if a: if b: body` is `if a and b: body`
+                test, body, has_else = st.test, st.body, bool(st.orelse)
+                while len(body) == 1 and isinstance(body[0], ast.If) and not has_else:
+                    test = ast.BoolOp(op=ast.And(), values=[test, body[0].test])
+                    has_else = bool(body[0].orelse)
+                    body = body[0].body
+                st = ast.If(test=test, body=body, orelse=[ast.Pass()] if has_else else [])
                 F["singleCond"] = gcond(st.test, single_names, pair)
                 conv, thr = "false", "unchanged"
                 for b in st.body:
@@ -116,10 +123,18 @@ def generate() -> str:
             flag = ex.args.args[2].arg if len(ex.args.args) > 2 else "set_to_binary"
             steps = []
             w = None            # the array being worked on: the copy, under whatever name
+            loc = {}            # other locals (a named mask): substituted textually where they are used as an index
             for st in ex.body:
                 if isinstance(st, ast.Expr) and isinstance(st.value, ast.Constant):
                     continue
+                if w and isinstance(st, ast.Assign) and len(st.targets) == 1 and isinstance(st.targets[0], ast.Name) and st.targets[0].id != w \
+                        and not isinstance(st.value, ast.Call) or (w and isinstance(st, ast.Assign) and len(st.targets) == 1 and isinstance(st.targets[0], ast.Name)
+                                                                    and st.targets[0].id != w and src(st.value).startswith(("np.isin(", "~np.isin(", "np.logical_not("))):
+                    loc[st.targets[0].id] = src(st.value)
+                    continue
                 t = src(st)
+                for k_, v_ in loc.items():
+                    t = re.sub(rf"\[{k_}\]", f"[{v_}]", t)
                 m = re.fullmatch(rf"(\w+) = (?:{a}\.copy\(\)|np\.copy\({a}\)|np\.array\({a}, copy=True\))", t)
                 if m and w is None:
                     w = m.group(1)
